@@ -44,8 +44,10 @@ impl Check for SimCheck {
     }
     fn cases(&self, tier: Tier) -> u32 {
         match tier {
-            Tier::Quick => self.quick,
-            Tier::Thorough => self.thorough,
+            // a scenario costs ~15-25 ms of one core (paused clock): the per-check base sizes are scaled so that
+            // a quick run takes 10-25 s and a thorough run several minutes on 16 cores
+            Tier::Quick => self.quick * 8,
+            Tier::Thorough => self.thorough * 8,
         }
     }
     fn required_labels(&self) -> Vec<&'static str> {
@@ -131,7 +133,7 @@ pub fn c01() -> SimCheck {
         },
         quick: 1200,
         thorough: 40_000,
-        rule: "scenario = 3/5 real nodes on the simulated network with generated election windows, delays, unary-RPC loss, stream duplication, moving partitions (stall or break), leader isolation up to the noop deadline (same-term step-down), graceful stops, crashes (turned into graceful stops while the C02 hard-state finding is open, counted), restarts, light write load; oracle |Leaders(T)|<=1 for every term; non-trivial = >=2 terms had a leader and >=1 fault happened; distinct by (term->leader map, fault kinds)",
+        rule: "scenario = 3/5 real nodes on the simulated network with generated election windows, delays, unary-RPC loss, stream duplication, moving partitions (stall or break), leader isolation up to the noop deadline (same-term step-down), graceful stops, process crashes and power-loss crashes, restarts, light write load; oracle |Leaders(T)|<=1 for every term; non-trivial = >=2 terms had a leader and >=1 fault happened; distinct by (term->leader map, fault kinds)",
         assumptions: vec!["crashes are real: process crash (page cache survives) or power loss (only flushed log data survives; a hard state saved through MetaStore is durable on return, as its contract states)"],
         required: vec!["leader_change"],
         judge: |_sc, res, out| {
